@@ -902,7 +902,6 @@ impl UdpSocket {
         })
     }
 
-    /// harness-only: inject a datagram as if it came from `from`
     pub fn sid(&self) -> usize {
         self.sid
     }
@@ -919,4 +918,22 @@ impl Drop for UdpSocket {
             w.log(14, self.sid as u64, 0);
         });
     }
+}
+
+/// harness-only (an on-path attacker): deliver `data` to whatever socket is bound at `to`, as if it had been sent by
+/// `from`. Returns false if nothing is bound there.
+pub fn inject_datagram(from: SocketAddr, to: SocketAddr, data: &[u8]) -> bool {
+    world::with(|w| {
+        let Some(did) = w.find_udp(&to) else { return false };
+        w.dgram_seq += 1;
+        let seq = w.dgram_seq;
+        let d = &mut w.udp[did];
+        d.queue.push(Dgram { at: Instant::now(), seq, from, data: data.to_vec() });
+        if let Some(wk) = d.waker.take() {
+            wk.wake();
+        }
+        w.stats.udp_sent += 1;
+        w.log(16, did as u64, data.len() as u64);
+        true
+    })
 }
